@@ -151,7 +151,7 @@ def armijo(chk, budget, with_raise):
             if isinstance(p.exc, BackendError):
                 chk.ok(base, 'no productive step: BackendError', nontrivial=False)
             else:
-                chk.fail(base, 'raises %r' % (p.exc,), None)
+                chk.fail(base, 'raises %r' % (p.exc,), _replay_armijo())
             continue
         (x_new, norm_new, alpha), tr = p.value
         with explore.activate(ex):
